@@ -124,27 +124,9 @@ func (z *ZodRecord[T, R]) MustParse(input any, ctx ...*core.ParseContext) R {
 
 // StrictParse validates input with compile-time type safety.
 func (z *ZodRecord[T, R]) StrictParse(input T, ctx ...*core.ParseContext) (R, error) {
-	var zero R
-
-	constraintInput, ok := convertToRecordConstraintValue[T, R](input)
-	if !ok {
-		if len(ctx) == 0 {
-			ctx = []*core.ParseContext{core.NewParseContext()}
-		}
-		return zero, issues.CreateTypeConversionError(
-			fmt.Sprintf("%T", input), "record constraint type", any(input), ctx[0],
-		)
-	}
-
-	return engine.ParseComplexStrict(
-		constraintInput,
-		&z.internals.ZodTypeInternals,
-		core.ZodTypeRecord,
-		z.extractRecordType,
-		z.extractRecordPtr,
-		z.validateRecordValue,
-		ctx...,
-	)
+	// StrictParse must answer exactly what Parse answers: the statically typed input is a valid
+	// Parse input, so run the one pipeline.
+	return z.Parse(input, ctx...)
 }
 
 // MustStrictParse validates input with type safety and panics on error.
